@@ -697,6 +697,13 @@ Section Gov.
     | Some p => negb (p_status p =? ST_PROPOSED) || negb (in_elect p c) || voted p c || (2 <=? b)
     end.
 
+  (** must a withdrawal be refused?  (unknown proposal, caller is not the sponsor, already ended) *)
+  Definition withdraw_must_fail st (c : N) (i : nat) : bool :=
+    match get_prop st i with
+    | None => true
+    | Some p => negb (h_from (p_hdr p) =? c) || (2 <=? p_status p)
+    end.
+
   (** the status of a governed object *)
   Definition obj_status st (x : N) : option string :=
     if x <? 300 then option_map fst (role_of st x)
@@ -718,7 +725,8 @@ Section Gov.
       1 a finished proposal changed            2 tally / one vote per elector broken
       3 a recorded ballot was dropped/changed  4 approved without the expression holding
       5 rejected while approval was reachable  6 special proposal concluded without super-admin vote
-      7 a refused transaction changed state / a vote that must be refused was accepted
+      7 a refused transaction changed state / a vote, a withdrawal or a call of a reserved method
+        that must be refused was accepted
       8 governed object changed without a proposal on it being created or ended
       9 header of an existing proposal changed / electorate of a new one is not the available admins
       10 electors counted as available do not cover the voters + available non-voters
@@ -739,7 +747,12 @@ Section Gov.
   Definition cl_special (b : state) : bool := forallb special_ok (s_props b).
   Definition cl_refusal (accts nodes : list N) (a : state) (o : op) (rc : N) (b : state) : bool :=
     ((rc =? 0) || obs_eqb accts nodes a b) &&
-    match o with OVote c i v => negb (vote_must_fail a c i v) || negb (rc =? 0) | _ => true end.
+    match o with
+    | OVote c i v => negb (vote_must_fail a c i v) || negb (rc =? 0)
+    | OWithdraw c i => negb (withdraw_must_fail a c i) || negb (rc =? 0)
+    | OGuarded _ => negb (rc =? 0)
+    | _ => true
+    end.
   Definition cl_object (accts nodes : list N) (a b : state) : bool :=
     forallb (fun x => option_eqb seqb (obj_status a x) (obj_status b x) || touched a b x) (accts ++ nodes ++ [400; 401; 402]).
   Definition cl_header (a b : state) : bool :=
